@@ -440,7 +440,7 @@ pub fn run_inner(which: Which, tier: Tier) -> i32 {
                 .take(6)
                 .map(|f| Violation {
                     class: f.class.clone(),
-                    key: format!("{}|{}", f.key, if v.desc.starts_with("pathological:") { v.desc.clone() } else { format!("edit of {}", v.desc.split(':').next().unwrap_or("")) }),
+                    key: format!("{}|{}", f.key, if v.desc.starts_with("pathological:") { v.desc.clone() } else if v.desc.starts_with("gen:") { "generated scoping program".to_string() } else { format!("edit of {}", v.desc.split(':').next().unwrap_or("")) }),
                     witness: json!({"case": cj, "query": f.query, "file": f.file, "off": f.off}),
                     detail: format!("[{}] {}", v.desc, f.detail),
                 })
@@ -448,6 +448,7 @@ pub fn run_inner(which: Which, tier: Tier) -> i32 {
             (n, rc, viol, any)
         })
         .collect();
+    let gen_count = all.iter().filter(|v| v.desc.starts_with("gen:")).count();
     let mut l = Layer { name: "single-edit-variants".into(), states: total, exhaustive: true, ..Default::default() };
     let mut ranges = 0;
     let mut failing_variants = 0u64;
@@ -463,7 +464,7 @@ pub fn run_inner(which: Which, tier: Tier) -> i32 {
         }
     }
     l.bound = format!(
-        "{} base workspaces ({} files) x every single token edit (delete / truncate / insert+replace over {} symbols / duplicate+remove item / empty{}) + {} pathological workspaces; offsets: token boundaries near the edit + stride elsewhere; queries: {}",
+        "{} base workspaces ({} files) x every single token edit (delete / truncate / insert+replace over {} symbols / duplicate+remove item / empty{}) + {} pathological workspaces + {gen_count} generated scoping programs (C05's generator); offsets: token boundaries near the edit + stride elsewhere; queries: {}",
         bases.len(),
         bases.iter().map(|b| b.1.packages.iter().map(|p| p.files.len()).sum::<usize>()).sum::<usize>(),
         if tier == Tier::Thorough { crate::core::alphabet::sigma().len() } else { QUICK_SYMS.len() },
@@ -509,6 +510,12 @@ fn all_variants(which: Which, tier: Tier) -> Vec<Variant> {
                 let chars = which == Which::C10 && (tier == Tier::Thorough || (name == "w3"));
                 all.extend(variants_of(name, ws, pi, fi, tier, chars));
             }
+        }
+    }
+    // shadowing-heavy generated programs (C05's generator) as further workspaces
+    if which == Which::C06 || tier == Tier::Thorough {
+        for (desc, ws) in crate::props::scoping::generated_workspaces(tier, which != Which::C06) {
+            all.push(Variant { desc, ws, pkg: 0, file: 0, focus: 0 });
         }
     }
     all
